@@ -67,7 +67,8 @@ MANIFEST = dict(
 THEOREMS = ["C10_roundtrip", "C10_roundtrip_stmt", "C10_roundtrip_type", "C10_roundtrip_dexpr",
             "C10_roundtrip_def", "C10_roundtrip_program",
             "C10_precedence", "C10_parens", "C10_fuel", "C10_sound_core",
-            "C10_characterised", "C10_sound_seq",
+            "C10_characterised", "C10_sound_seq", "C10_sound_type", "C10_sound_dexpr",
+            "C10_sound_statement", "C10_full_partial",
             "C10_optable", "C10_lex_tables", "C10_lex_number", "C10_lex_number_sound",
             "C10_lex_ident", "C10_lex_ident_sound"]
 ALLOWED_AXIOMS = []
